@@ -282,15 +282,21 @@ type c18Params struct {
 }
 
 func c18Laws(w *mon.W, label string, idx int, src string) {
-	prof := ""
+	// "general:" = inputs on which the recorded expanded-syntax findings may show; every other
+	// profile is a fragment on which the laws hold today, so any failure there is new
+	prof := "general:"
 	if label == "generated-core" || label == "generated-strings" || label == "generated-oneline" {
 		prof = "core-profile:"
 	}
 	if label == "generated-oneline" {
 		prof = "one-line-blocks:"
 	}
-	if false {
-		prof = "core-profile:"
+	// the round-trip law (L3) and the expanded-text law (L4) can have different profiles: for
+	// keyword-named locals the expanded lexer is known to misread the text (recorded, L4), while
+	// the round trip works and must keep working (L3)
+	prof3 := prof
+	if label == "keyword-named-locals" {
+		prof3 = "keyword-named-locals:"
 	}
 	var f1, f2, ex, co string
 	var pan interface{}
@@ -351,9 +357,9 @@ func c18Laws(w *mon.W, label string, idx int, src string) {
 	w.Count("L4_checked", 1)
 	// L3
 	if m3, err := parseModule(co); err != nil {
-		w.Violate("L3:compact-of-expand-does-not-parse:"+prof+c18ErrSig(err.Error()), "compact(expand(x)) does not parse: "+clipN(err.Error(), 160), wit(map[string]interface{}{"round_trip": clipN(co, 1500)}))
+		w.Violate("L3:compact-of-expand-does-not-parse:"+prof3+c18ErrSig(err.Error()), "compact(expand(x)) does not parse: "+clipN(err.Error(), 160), wit(map[string]interface{}{"round_trip": clipN(co, 1500)}))
 	} else if a3 := c18AST(m3); a3 != a0 {
-		w.Violate("L3:round-trip-changes-the-tree:"+prof+c18DiffSig(a0, a3), "compact(expand(x)) parses to a different syntax tree: "+c18FirstDiff(a0, a3), wit(map[string]interface{}{"round_trip": clipN(co, 1500)}))
+		w.Violate("L3:round-trip-changes-the-tree:"+prof3+c18DiffSig(a0, a3), "compact(expand(x)) parses to a different syntax tree: "+c18FirstDiff(a0, a3), wit(map[string]interface{}{"round_trip": clipN(co, 1500)}))
 	}
 	w.Count("L3_checked", 1)
 }
@@ -416,6 +422,10 @@ func c18Worker(in, out string) {
 			if i%4 == 0 {
 				src = c18Decorate(rng, src, false)
 			}
+			if i%150 == 7 {
+				// one very long line (an inlined blob): 70 000 characters in a string literal
+				src = strings.Replace(src, "@ GET /t", "@ GET /blob {\n  > \""+strings.Repeat("QUJD", 17500)+"\"\n}\n\n@ GET /t", 1)
+			}
 		case "generated-oneline":
 			f := gen.Features{Floats: true, Strings: true, Arrays: true, Objects: true, While: true, For: true, Switch: true, StatusReturn: true, BuiltinsCore: true, BuiltinsInterp: true,
 				LogicRhsMayFail: true, EqIntFloat: true, DivZero: true, IndexOOR: true, NestedReturn: true, DeclInBranch: true}
@@ -423,6 +433,26 @@ func c18Worker(in, out string) {
 			prog := g.Program(2 + rng.Intn(7))
 			pat, _ := prog.RoutePath("/t")
 			src = c18OneLineBlocks(rng, prog.Source(pat))
+		case "keyword-named-locals":
+			// identifiers spelled like expanded-syntax keywords, used only where the tools handle
+			// them today (after `$`, after `in`, inside expressions — never as the first word of a
+			// line): the round trip must keep giving the same tree
+			kw := []string{"type", "queue", "command", "handle", "route", "cron", "func"}[rng.Intn(7)]
+			kw2 := []string{"type", "queue", "command", "handle", "route", "cron", "func"}[rng.Intn(7)]
+			if kw2 == kw {
+				kw2 = "plain"
+			}
+			a, b := rng.Intn(9)+1, rng.Intn(9)+1
+			switch rng.Intn(4) {
+			case 0:
+				src = fmt.Sprintf("@ GET /t {\n  $ %s = [%d, %d, 2]\n  $ n = 0\n  for job in %s {\n    n = n + job\n  }\n  if n == length(%s) {\n    > {a: n}\n  }\n  while n > length(%s) {\n    n = n - 1\n  }\n  > {b: n, c: %s}\n}\n", kw, a, b, kw, kw, kw, kw)
+			case 1:
+				src = fmt.Sprintf("@ GET /t/:pin {\n  $ %s = \"email\"\n  $ %s = %d\n  if %s == \"email\" {\n    > {x: %s + %d}\n  }\n  if pin == %s {\n    > {y: %s}\n  }\n  > {z: [%s, %s]}\n}\n", kw, kw2, a, kw, kw2, b, kw, kw2, kw, kw2)
+			case 2:
+				src = fmt.Sprintf("@ GET /t {\n  $ %s = %d\n  $ acc = 0\n  while %s > acc {\n    acc = acc + %d\n  }\n  switch %s {\n    case %d {\n      > {hit: %s}\n    }\n    default {\n      > {miss: acc - %s}\n    }\n  }\n}\n", kw, a*3, kw, b, kw, a*3, kw, kw)
+			default:
+				src = fmt.Sprintf("@ GET /t {\n  $ %s = {a: %d, s: \"x\"}\n  $ %s = [%d]\n  $ m = match %s.a {\n    %d => %s[0]\n    _ => 0\n  }\n  > {m: m, o: %s, l: %s}\n}\n", kw, a, kw2, b, kw, a, kw2, kw, kw2)
+			}
 		case "bytes":
 			if rng.Intn(3) == 0 || len(corpus) == 0 {
 				b := make([]byte, rng.Intn(300))
@@ -463,6 +493,8 @@ func checkC18(tier string) {
 	r.RunBatch(mon.Batch{Worker: "c18", Tag: "generated-core", N: nc, Chunk: (nc + 15) / 16, Parallel: 16, Params: c18Params{Family: "generated-core"}, OnDeath: onDeath, Timeout: 40 * time.Minute})
 	nsx := r.Pick(12000, 400000)
 	r.RunBatch(mon.Batch{Worker: "c18", Tag: "generated-strings", N: nsx, Chunk: (nsx + 15) / 16, Parallel: 16, Params: c18Params{Family: "generated-strings"}, OnDeath: onDeath, Timeout: 40 * time.Minute})
+	nkw := r.Pick(600, 6000)
+	r.RunBatch(mon.Batch{Worker: "c18", Tag: "keyword-named-locals", N: nkw, Chunk: (nkw + 15) / 16, Parallel: 16, Params: c18Params{Family: "keyword-named-locals"}, OnDeath: onDeath, Timeout: 40 * time.Minute})
 	nol := r.Pick(6000, 200000)
 	r.RunBatch(mon.Batch{Worker: "c18", Tag: "generated-oneline", N: nol, Chunk: (nol + 15) / 16, Parallel: 16, Params: c18Params{Family: "generated-oneline"}, OnDeath: onDeath, Timeout: 40 * time.Minute})
 	nb := r.Pick(20000, 800000)
